@@ -25,7 +25,7 @@ macro "iterstep" h:ident hpc:ident t:ident Y:term : tactic =>
              · exact ($h).bit
              · intro a ha; have := hown a ha; projs <;> (try exact this)
              · intro a t0 h0 ha; exact ha
-             · constructor <;> intros <;> projs <;> (try dsimp only at *) <;> (try grind [upd, hd, tl])
+             · constructor <;> intros <;> projs <;> (try dsimp only at *) <;> (try tfin)
              · intro t0 h0
                exact TInv.frame_iter $h _ _ _ _ _ _ (by first | rfl | exact upd_other _ _ _ _ h0)
                  (by first | rfl | exact upd_other _ _ _ _ h0) (by first | rfl | exact upd_other _ _ _ _ h0)
@@ -121,7 +121,7 @@ theorem step_eaCas_ok {s : St} {t : Tid} {e : Nat} (h : SInv s) (hpc : s.pc t = 
   · exact bit_upd_data h.bit _ _ (by rw [hd])
   · intro a ha; have := hown a ha; projs
   · intro a t0 h0 ha; exact ha
-  · constructor <;> intros <;> (try dsimp only [St.removed] at *) <;> projs <;> (try grind [upd])
+  · constructor <;> intros <;> (try dsimp only [St.removed] at *) <;> projs <;> (try tfin)
   · intro t0 h0; exact TInv.frame_remove h h0 _ _ _ _ _ _ hlk hd (fun _ _ hx => hx) (fun _ _ => rfl)
   · keep hpc
   · keep hpc
@@ -166,14 +166,18 @@ theorem sinv_invoke_ins {s : St} {t : Tid} {k : Int} {e : Nat} {u al : Bool} (h 
   · exact h.bit
   · intro a ha; have := hown a ha; projs
   · intro a t0 h0 ha; exact ha
-  · constructor <;> intros <;> projs <;> (try dsimp only at *) <;> (try grind [upd])
+  · constructor <;> intros <;> projs <;> (try dsimp only at *) <;> (try tfin)
   · intro t0 h0
     have hq := h.thr t0
     apply hq.frame <;>
       first | rfl | exact Nat.le_refl _ | (intros; rfl) | (intros; exact ⟨rfl, rfl⟩) | (intros; assumption) | skip
-    intro x hx
-    have hxe : x ≠ e := fun hc => by have := (hq.pused x hx).1; rw [hc, hu] at this; cases this
-    exact ⟨upd_other _ _ _ _ hxe, rfl, rfl⟩
+    · intro x hx
+      have hxe : x ≠ e := fun hc => by have := (hq.pused x hx).1; rw [hc, hu] at this; cases this
+      exact ⟨upd_other _ _ _ _ hxe, rfl, rfl⟩
+    · intro x hx; exact umono x hx
+    · intro x hx
+      have hxe : x ≠ e := fun hc => by rw [hc, hu] at hx; cases hx
+      exact upd_other _ _ _ _ hxe
   · intro n hn; cases hn
   · intro x hx t0 h0 hc
     have hxe : x = e := by simpa [pend] using hx.symm
@@ -259,7 +263,7 @@ theorem sinv_invoke {s s' : St} {t : Tid} {op : GOp} (h : SInv s) (hs : invoke s
         · intro a ha; have := hown a ha; projs
         · intro a t0 h0 ha; exact ha
         · have := hnog t
-          constructor <;> intros <;> projs <;> (try dsimp only at *) <;> (try grind [upd])
+          constructor <;> intros <;> projs <;> (try dsimp only at *) <;> (try tfin)
         · intro t0 h0
           have hq := h.thr t0
           have := hnog t0
@@ -287,8 +291,10 @@ theorem sinv_step {s s' : St} {t : Tid} {ev : Ev} (h : SInv s) (hs : step s t = 
     exact step_wNext h hpc
   next pu k prev pv cur hpc =>
     split at hs
-    · simp only [Option.some.injEq, Prod.mk.injEq] at hs; obtain ⟨rfl, -⟩ := hs
-      exact sinv_concl h hpc (Or.inl rfl)
+    · rename_i hnx
+      simp only [Option.some.injEq, Prod.mk.injEq] at hs; obtain ⟨rfl, -⟩ := hs
+      have hl := ((h.thr t).wcur prev cur (by rw [hpc]; rfl)).1
+      exact sinv_concl h hpc (Or.inl rfl) (fun _ he => by cases he) (fun _ => self_loop_tail h hl hnx)
     · rename_i hne
       simp only [Option.some.injEq, Prod.mk.injEq] at hs; obtain ⟨rfl, -⟩ := hs
       exact step_wTail_in h hpc hne
@@ -297,14 +303,26 @@ theorem sinv_step {s s' : St} {t : Tid} {ev : Ev} (h : SInv s) (hs : step s t = 
     exact step_wLd1 h hpc
   next pu k prev pv cur w hpc =>
     split at hs
-    · split at hs
-      · split at hs
-        · simp only [Option.some.injEq, Prod.mk.injEq] at hs; obtain ⟨rfl, -⟩ := hs
-          exact sinv_concl h hpc (Or.inr ⟨w, rfl⟩)
-        · simp only [Option.some.injEq, Prod.mk.injEq] at hs; obtain ⟨rfl, -⟩ := hs
-          exact step_wLd2_on h hpc
+    · rename_i hdw
+      split at hs
+      · rename_i e hwe
+        have hue : s.used e = true := by
+          have := h.elem.ehome cur e (by rw [hdw]; exact hwe)
+          exact (h.elem.hrng e cur this).1
+        split at hs
+        · rename_i hle
+          simp only [Option.some.injEq, Prod.mk.injEq] at hs; obtain ⟨rfl, -⟩ := hs
+          refine sinv_concl h hpc (Or.inr ⟨w, rfl⟩) ?_ (fun he => by cases he)
+          intro e' he'
+          cases he'
+          exact ⟨hue, hle, by simp⟩
+        · rename_i hle
+          simp only [Option.some.injEq, Prod.mk.injEq] at hs; obtain ⟨rfl, -⟩ := hs
+          refine step_wLd2_on h hpc ?_
+          intro v hv; cases hv
+          exact ⟨hue, by omega⟩
       · simp only [Option.some.injEq, Prod.mk.injEq] at hs; obtain ⟨rfl, -⟩ := hs
-        exact step_wLd2_on h hpc
+        exact step_wLd2_on h hpc (fun _ hv => by cases hv)
     · simp only [Option.some.injEq, Prod.mk.injEq] at hs; obtain ⟨rfl, -⟩ := hs
       exact step_wLd2_retry h hpc
   next k cur e hpc =>
